@@ -7,7 +7,8 @@ Correspondence, per case (language, configuration, Rust source):
   * the judgement runs on the REAL bytes: the extracted Gallina lexer of the language (c10_lex), the
     extracted keyword predicates (good_C10_kw, good_C10_swift_labels) on the declaring positions that
     lib/extract.py finds in the real text, and the grammar validators: the extracted Gallina recogniser of
-    the TypeScript declaration grammar (Spec/C10TsGrammar.v), CPython ast.parse + a declaration grammar over
+    the TypeScript declaration grammar (Spec/C10TsGrammar.v) and of the Kotlin declaration grammar (Spec/C10KtGrammar.v,
+    on every real Kotlin file, single-file and folder mode), CPython ast.parse + a declaration grammar over
     its AST + import against lib/pydantic_stub for Python, the template recognisers of lib/extract.py
     (nothing unparsed, no anomaly) for all six, plus `= _` in a Scala parameter list;
   * dom_C10 / known_C10 (extracted) on the IR the REAL parser produced classify the case.
@@ -32,7 +33,7 @@ PREDICTS = {
     'C10-python-generic-alias': {'py-grammar', 'py-import-at-generic-alias'},
     'C10-python-empty-union': {'py-syntax'},
     'C10-python-digit-name': {'py-syntax', 'identifier', 'template'},
-    'C10-digit-name': {'identifier', 'template', 'ts-grammar'},
+    'C10-digit-name': {'identifier', 'template', 'ts-grammar', 'kt-grammar'},
     'C10-python-generic-enum-arg': {'py-import-not-subscriptable'},
 }
 
@@ -418,6 +419,9 @@ def judge(chk, cases, tag):
     cfgkeys = sorted(set((cases[k][0], json.dumps(cases[k][1], sort_keys=True)) for k in idx))
     cfgq = [f'(c10_cfg {l} {back.cfg_sx(json.loads(c))})' for l, c in cfgkeys]
     ans = vf.model(lexq + clsq + kwq + [q for _, q in tsq] + cfgq)
+    # the extracted recogniser of the Kotlin declaration grammar on every real Kotlin file
+    ktk = [k for k in idx if cases[k][0] == 'kotlin']
+    kta = dict(zip(ktk, vf.model([f'(c10_kt_parse {S(res[k]["impl"][1])})' for k in ktk])))
     n = len(idx)
     lexa, clsa, kwa = ans[:n], ans[n:2 * n], ans[2 * n:3 * n]
     tsa = dict(zip([k for k, _ in tsq], ans[3 * n:3 * n + len(tsq)]))
@@ -457,6 +461,12 @@ def judge(chk, cases, tag):
         if k in tsa and tsa[k] == 'none':
             fails.append('ts-grammar')
             why.append('the extracted recogniser of the TypeScript declaration grammar (Spec/C10TsGrammar.v) rejects the text')
+        if k in kta:
+            if kta[k] == 'none':
+                fails.append('kt-grammar')
+                why.append('the extracted recogniser of the Kotlin declaration grammar (Spec/C10KtGrammar.v) rejects the text')
+            else:
+                chk.count('kt_grammar_accepted')
         if vf.sx_get(kwa[j], 'kw') != 'true':
             fails.append('keyword')
             why.append('a declared name that is a keyword of the language is not escaped')
@@ -610,8 +620,14 @@ def phase_folder(chk, n):
                 continue
             files = {f.name: f.read_text(errors='replace') for f in sorted(out.iterdir()) if f.is_file()}
             lex = vf.model([f'(c10_lex {lang} {S(t)})' for t in files.values()])
-            for (fn, t), lx in zip(files.items(), lex):
+            ktg = vf.model([f'(c10_kt_parse {S(t)})' for t in files.values()]) if lang == 'kotlin' else [None] * len(files)
+            for (fn, t), lx, kg in zip(files.items(), lex, ktg):
                 fails, why = [], []
+                if kg == 'none':
+                    fails.append('kt-grammar')
+                    why.append(f'{fn}: the extracted recogniser of the Kotlin declaration grammar (Spec/C10KtGrammar.v) rejects the text')
+                elif kg is not None:
+                    chk.count('kt_grammar_accepted_folder')
                 if lx[0] != 'balanced':
                     fails.append('lex')
                     why.append(f'lexer: {lx[0]} in {fn}')
@@ -654,6 +670,7 @@ def lex_expectations(chk):
     ans = vf.model([f'(c10_lex {l} {S(t)})' for (l, _), t in zip(files, texts)])
     tsans = vf.model([f'(c10_ts_parse {S(t)})' for (l, _), t in zip(files, texts) if l == 'typescript'])
     tsit = iter(tsans)
+    ktit = iter(vf.model([f'(c10_kt_parse {S(t)})' for (l, _), t in zip(files, texts) if l == 'kotlin']))
     blame = {'scala-default': 'C10-scala-default', 'py-grammar': 'C10-python-generic-alias'}
     for (lang, f), t, a in zip(files, texts, ans):
         chk.count('expectation_files')
@@ -664,6 +681,9 @@ def lex_expectations(chk):
         if lang == 'typescript' and next(tsit) == 'none':
             fails = fails + ['ts-grammar']
             why = why + ['rejected by the extracted TypeScript recogniser']
+        if lang == 'kotlin' and next(ktit) == 'none':
+            fails = fails + ['kt-grammar']
+            why = why + ['rejected by the extracted Kotlin recogniser']
         name = pathlib.Path(f).parent.name
         for k in fails:
             if k == 'py-grammar' and not any('Subscript' in w for w in why):
@@ -683,7 +703,7 @@ def run(chk):
                 'A case is non-trivial when it is inside dom_C10, in no finding class, and declares at least one definition.')
     chk.assumptions = [
         'the six lexers of Spec/C10Spec.v are the definition of "delimiters, string literals and comments are closed" (no compiler of the five non-Python languages is installed)',
-        'grammar conformance is validated, not proved: CPython ast.parse + import against lib/pydantic_stub for Python; template recognisers of lib/extract.py for the others',
+        'grammar conformance of TypeScript and Kotlin files is judged by the extracted Gallina recognisers of their declaration grammars (proved to accept what the models print); for the others it is validated, not proved: CPython ast.parse + import against lib/pydantic_stub for Python; template recognisers of lib/extract.py for the others',
         'doc text is restricted to the safe predicate c10_doc_ok (doc-induced breakage is C15)',
         'a Python NameError at import is name resolution (C09 / C11 / C12) and a duplicate Enum member name is a naming collision (C02): both counted, not judged here; any other import failure is judged',
     ]
@@ -780,6 +800,11 @@ def replay(chk, path):
         print('lexer verdict  :', vf.dump_sx(lex))
         print('classification :', vf.dump_sx(cls))
         print('keywords       :', vf.dump_sx(kw))
+        if d['lang'] == 'kotlin':
+            kg = vf.model([f'(c10_kt_parse {S(text)})'])[0]
+            print('kotlin grammar :', vf.dump_sx(kg))
+            if kg == 'none':
+                fails = list(fails) + ['kt-grammar']
         print('grammar        :', fails, why)
         bad = lex[0] != 'balanced' or fails or vf.sx_get(kw, 'kw') != 'true' or vf.sx_get(kw, 'labels') != 'true'
         return 1 if bad else 0
